@@ -14,6 +14,7 @@ from __future__ import annotations
 
 import collections
 import math
+import os
 import traceback
 from fractions import Fraction
 
@@ -45,8 +46,9 @@ REQUIRED_COUNTERS = [
 ]
 TIMEOUT = {"quick": 600, "thorough": 3000}
 
-#: switch to True to judge "remove every cluster => their charge is no longer reported" (see ASSUMPTIONS)
-STRICT_REMOVE_ALL = False
+#: True (or VERIF_C14_STRICT_REMOVE_ALL=1) judges "remove every cluster => their charge is no longer
+#: reported" (mechanism C14:remove-all:removed-charge-still-reported), see ASSUMPTIONS
+STRICT_REMOVE_ALL = os.environ.get("VERIF_C14_STRICT_REMOVE_ALL", "0") == "1"
 
 MODES = {
     "jit": {"NUMBA_DISABLE_JIT": "0", "NUMBA_BOUNDSCHECK": "0"},
@@ -65,21 +67,14 @@ def plan(tier, seed):
     JIT modes recompile the kernel at every read (about 0.1 s) and run the first n_jit of them.
     """
     if tier == "quick":
-        groups, n, n_jit = 6, 260, 28
-        layout = [("nojit", range(0, 6)), ("jit", range(0, 5)), ("boundscheck", range(0, 5))]
+        n, n_jit, groups = 260, 28, {"jit": 5, "boundscheck": 5, "nojit": 6}
     else:
-        groups, n, n_jit = 16, 1900, 260
-        layout = [("nojit", range(0, 16)), ("jit", range(0, 16)), ("boundscheck", range(0, 16))]
+        n, n_jit, groups = 1900, 260, {"jit": 16, "boundscheck": 16, "nojit": 16}
     specs = []
-    # JIT shards first: they are the long ones
-    for mode in ("jit", "boundscheck", "nojit"):
-        for m, rng_ in layout:
-            if m != mode:
-                continue
-            for g in rng_:
-                specs.append({"shard": g, "seed": seed, "kind": "hist", "mode": mode,
-                              "n": n if mode == "nojit" else n_jit, "env": dict(MODES[mode])})
-    assert groups >= 1
+    for mode in ("jit", "boundscheck", "nojit"):      # the JIT shards first: they are the long ones
+        for g in range(groups[mode]):
+            specs.append({"shard": g, "seed": seed, "kind": "hist", "mode": mode,
+                          "n": n if mode == "nojit" else n_jit, "env": dict(MODES[mode])})
     return specs
 
 
@@ -338,7 +333,7 @@ class Runner:
             where = "cluster-outside-area" if ledger.outside_live() else opname
             self.violation(f"C14:{where}:raised-{type(exc).__name__}",
                            f"{opname} (op #{k}) raised {type(exc).__name__}: {exc} :: "
-                           f"{traceback.format_exc()[-700:]}", k)
+                           f"{' | '.join(traceback.format_exc()[-700:].splitlines())}", k)
 
     def compare(self, charge, ledger, k, opname):
         import numpy as np
@@ -363,6 +358,8 @@ class Runner:
         if bad:
             if opname == "reset":
                 mech = "C14:reset:not-zero"
+            elif opname == "remove-all":
+                mech = "C14:remove-all:removed-charge-still-reported"
             elif n_out:
                 mech = "C14:cluster-outside-area:credited-elsewhere"
             elif self.border_live:
@@ -658,10 +655,13 @@ def on_worker_failure(res):
     index = in_flight[0]
     rspec = {k: v for k, v in res["spec"].items() if not k.startswith("_")}
     rspec["only"] = index
+    err = res.get("stderr", "") or ""
+    pos = max(err.find("Fatal Python error"), err.find("free()"), err.find("malloc"), err.find("corrupt"))
+    err = " | ".join((err[pos:pos + 700] if pos >= 0 else err[-700:]).splitlines())
     return {"mechanism": "C14:worker-died-on-out-of-area-cluster",
             "detail": f"worker (numba mode {res['spec'].get('mode')}) was killed by signal {-rc} while executing "
                       f"history #{index} of shard {res['spec'].get('shard')}, which holds clusters outside the "
-                      f"sensitive area; stderr tail: {res.get('stderr', '')[-900:]}",
+                      f"sensitive area; stderr: {err}",
             "case": {"mode": res["spec"].get("mode"), "history_index": index, "shard": res["spec"].get("shard"),
                      "note": "the history is regenerated from (seed, shard, kind, index)"},
             "replay_spec": rspec}
